@@ -449,7 +449,9 @@ func record(rc rcase, v verdict, sub string) {
 	nontrivial := f.total() > 4 && v.dataReads >= 2 || boundarySize(f.total())
 	hdr := fmt.Sprintf("t%dl%d", len(f.Tag)/2, f.LenOctets)
 	class := fmt.Sprintf("%s/%s/%s", sizeClass(f.total()), mode, v.outcome)
-	evid.Case(class, nontrivial, fmt.Sprintf("%s|%s|%s|%s|%d|%v", hdr, pol, leClass(rc.Chip.MaxLe), sub, f.total(), rc.Chip.LeReject > 0), nil)
+	evid.CaseFn(class, nontrivial, fmt.Sprintf("%s|%s|%s|%s|%d|%v", hdr, pol, leClass(rc.Chip.MaxLe), sub, f.total(), rc.Chip.LeReject > 0), func() any {
+		return map[string]any{"case": rc, "outcome": v.outcome, "data_reads": v.dataReads, "file_total": f.total(), "chunk_policy": pol}
+	})
 	evid.Count("outcome-"+v.outcome, 1)
 	if v.outcome == "error" {
 		evid.Count("error-cause-"+v.errCause, 1)
